@@ -45,7 +45,9 @@ def world_description(tier):
     w = WORLD[tier]
     return (
         f"pairs: disjoint layouts N={w['N']} k<={w['k']} x strands x parent kinds none/id/seq; cross-kind pairs N={w['Nx']} k<=2; "
-        f"unary: disjoint/+empty/+overlap layouts N={w['Nu']} k<=3"
+        f"unary: disjoint/+empty/+overlap layouts N={w['Nu']} k<=3; scale family: layouts with k in {worlds.SCALE_K[tier]} "
+        f"(k<={16 if tier == 'quick' else 40}) blocks x strands: unary battery, and the whole pair battery against the shifted twin, "
+        f"the gaps, the next family member and the single intervals anchored at block boundaries (both operand orders)"
     )
 
 
@@ -55,6 +57,7 @@ def shards(tier, seed):
     out += [{"tier": tier, "part": "unary", "i": i} for i in range(NSH)]
     out += [{"tier": tier, "part": "empty", "i": 0}]
     out += [{"tier": tier, "part": "unstranded", "i": i} for i in range(8)]
+    out += [{"tier": tier, "part": "scale", "i": i} for i in range(NSH)]
     return out
 
 
@@ -528,6 +531,32 @@ def run_shard(shard):
                     for pk in ("none", "seq"):
                         check_pair(res, N, b1, s1, pk, b2, s2, pk)
         res.sample({"unstranded": "pairs with at least one UNSTRANDED operand"})
+    elif part == "scale":
+        # the scale family (vlib/worlds.py): operands with many blocks.  Partners of a layout A: A shifted by one, A's own
+        # gaps, the next layout of the family, every single interval from before A to a block boundary / from a block
+        # boundary to behind A, every single interval covering block i and one base more
+        fam = [bl for k, bl in worlds.scale_layouts(tier) if k <= (16 if tier == "quick" else 40)]
+        for idx, A in enumerate(fam):
+            if idx % NSH != shard["i"]:
+                continue
+            N = max(A[-1][1], fam[(idx + 1) % len(fam)][-1][1]) + 3
+            lo, hi = A[0][0], A[-1][1]
+            partners = [tuple((s + 1, e + 1) for s, e in A), fam[(idx + 1) % len(fam)]]
+            gaps = tuple((A[j][1], A[j + 1][0]) for j in range(len(A) - 1) if A[j + 1][0] > A[j][1])
+            if gaps:
+                partners.append(gaps)
+            coords = sorted({c for s, e in A for c in (s, e)})
+            step = 1 if len(A) <= 8 else 3
+            singles = {(max(lo - 1, 0), c) for c in coords[1::step]} | {(c, hi + 1) for c in coords[:-1:step]} | {(s, e + 1) for s, e in A[::step]}
+            partners += [(b,) for b in sorted(singles) if b[1] > b[0]]
+            for s1 in "+-":
+                for pk in ("none", "seq"):
+                    check_unary(res, "disjoint", N, A, s1, pk)
+                for B in partners:
+                    for s2 in "+-":
+                        check_pair(res, N, A, s1, "seq", B, s2, "seq")
+                        check_pair(res, N, B, s2, "none", A, s1, "none")
+        res.sample({"scale": "many-block operands", "layouts": len(fam)})
     return res
 
 
